@@ -3,10 +3,14 @@
 id=$1; shift
 cd /verif
 git -C /repo diff --quiet || { echo "/repo is dirty"; exit 2; }
-git -C /repo apply /verif/seeded/$id/patch.diff || exit 2
+patch=/verif/seeded/$id/patch.diff
+[ -f /verif/seeded/$id/patch_adapted_to_current_tree.diff ] && patch=/verif/seeded/$id/patch_adapted_to_current_tree.diff   # later repairs touched the same lines
+git -C /repo apply $patch || exit 2
 for p in "$@"; do
+  cp /verif/evidence/$p.json /verif/.work/evidence-$p.keep 2>/dev/null   # the seeded run must not replace the evidence of the unchanged tree
   ./check $p quick > /verif/.work/logs/seed-$id-$p.log 2>&1
   echo "seed $id check $p rc=$? violations=$(grep -c '^VIOLATION' /verif/.work/logs/seed-$id-$p.log) $(grep '^gosmt: .* done' /verif/.work/logs/seed-$id-$p.log | sed 's/.*done in //')"
+  mv /verif/.work/evidence-$p.keep /verif/evidence/$p.json 2>/dev/null
   grep -A1 '^VIOLATION' /verif/.work/logs/seed-$id-$p.log | grep 'harness=' | sed 's/ native=.*draws=/ draws=/' | cut -c1-260 | head -4
 done
 git -C /repo checkout -- .
